@@ -33,8 +33,8 @@ ASSUMPTIONS = [
 
 
 @st.composite
-def case_pair(draw: Any, tier: str = "quick") -> dict[str, Any]:
-    kinds = list(programs.SAMPLER_KINDS) + (["gp"] if tier == "thorough" else [])
+def case_pair(draw: Any, tier: str = "quick", only: list[str] | None = None) -> dict[str, Any]:
+    kinds = only or (list(programs.SAMPLER_KINDS) + (["gp"] if tier == "thorough" else []))
     sampler = draw(programs.sampler_spec(kinds))
     prog = draw(programs.program(discrete_only=sampler["kind"] == "brute"))
     n_obj = prog["n_obj"]
@@ -146,6 +146,73 @@ def run_pair(case: dict[str, Any], ctx: Ctx) -> None:
     ctx.event("pruning_decisions_mirrored", sum(len(r["iv"]) for r in a))
 
 
+# ---- pruners alone: interleaved report / should_prune histories, mirrored ---------------------
+
+
+@st.composite
+def case_pruner(draw: Any) -> dict[str, Any]:
+    """A C16 history (interleaved ask / report / should_prune / tell of up to 8 trials, any pruner)
+    made exactly mirrorable: values on the 1/8 grid, percentiles multiples of 12.5, no champion;
+    NaN and both infinities (worse side / better side of the direction) among the reports."""
+    from props import c16_pruners as c16
+
+    case = draw(c16.case_study())
+    case["champion"] = None
+
+    def q(v: Any) -> Any:
+        if isinstance(v, str) or v != v:
+            return v
+        return round(v * 8) / 8
+
+    for c in case["curves"]:
+        c["reports"] = [[s_, draw(st.sampled_from(["BINF", "WINF"])) if draw(st.integers(0, 11)) == 0 else q(v)] for s_, v in c["reports"]]
+
+    def fix(p: dict[str, Any]) -> dict[str, Any]:
+        p = dict(p)
+        if "percentile" in p:
+            p["percentile"] = round(p["percentile"] / 12.5) * 12.5
+        if p.get("wrapped"):
+            p["wrapped"] = fix(p["wrapped"])
+        return p
+
+    case["pruner"] = fix(case["pruner"])
+    return case
+
+
+def _mirror_pruner(p: dict[str, Any]) -> dict[str, Any]:
+    p = dict(p)
+    if p["kind"] == "threshold":
+        p["lower"], p["upper"] = (None if p["upper"] is None else -p["upper"]), (None if p["lower"] is None else -p["lower"])
+    if p.get("wrapped"):
+        p["wrapped"] = _mirror_pruner(p["wrapped"])
+    return p
+
+
+def run_pruner(case: dict[str, Any], ctx: Ctx) -> None:
+    from props import c16_pruners as c16
+
+    neg = lambda v: v if isinstance(v, str) else -v  # noqa: E731  (NaN stays NaN; the infinity tokens follow the direction)
+    mirrored = dict(
+        case,
+        direction="maximize" if case["direction"] == "minimize" else "minimize",
+        pruner=_mirror_pruner(case["pruner"]),
+        curves=[dict(c, reports=[[s_, neg(v)] for s_, v in c["reports"]], final=-c["final"]) for c in case["curves"]],
+    )
+    a = c16.execute(case, 0, False, None)
+    b = c16.execute(mirrored, 0, False, None)
+    kind = case["pruner"]["kind"] + ("+" + case["pruner"]["wrapped"]["kind"] if case["pruner"].get("wrapped") else "")
+    n_inf = sum(1 for c in case["curves"] for _, v in c["reports"] if isinstance(v, str))
+    ctx.case(fp=case, nontrivial=len(a) > 1 and sum(1 for c in case["curves"] if c["reports"]) >= 2, classes=[kind, case["direction"], "with-infinite-reports" if n_inf else "finite-or-nan"], sample=case)
+    ctx.event("pruning_decisions_mirrored", len(a))
+    if a != b:
+        d = next((x, y) for x, y in zip(a, b) if x != y) if len(a) == len(b) else (a[-1:], b[-1:])
+        raise Violation("mirror:pruning-decision-differs", f"pruner={case['pruner']} direction={case['direction']}: [trial, step, pruned?, bracket] {d[0]} vs mirrored run {d[1]}; curves {[c['reports'] for c in case['curves']]}", case)
+
+
 CHECKS = [
     Check("pair", lambda tier: case_pair(tier), run_pair, {"quick": 1600, "thorough": 40000}, budget_s={"quick": 120, "thorough": 2400}),
+    # the GP sampler costs seconds per study (torch): a few pairs in the quick tier, more of them
+    # inside "pair" in the thorough tier
+    Check("pruner", lambda tier: case_pruner(), run_pruner, {"quick": 6000, "thorough": 300000}, budget_s={"quick": 100, "thorough": 1500}),
+    Check("pair_gp", lambda tier: case_pair(tier, only=["gp"]), run_pair, {"quick": 48, "thorough": 1600}, budget_s={"quick": 100, "thorough": 1500}, shrink=False),
 ]
